@@ -55,6 +55,22 @@ func (s *sinkWriter) Write(p []byte) (int, error) {
 func (s *sinkWriter) Close() error           { return nil }
 func (s *sinkWriter) SetSource(string) error { return nil }
 
+// failingWriter is a member that cannot take the message: it reports an error, or a short write without error.
+type failingWriter struct {
+	x    *gosim.Exec
+	mode string // error | short
+}
+
+func (f *failingWriter) Write(p []byte) (int, error) {
+	f.x.Gate(0, "sink failing.Write")
+	if f.mode == "error" {
+		return 0, fmt.Errorf("member out of order")
+	}
+	return len(p) / 2, nil
+}
+func (f *failingWriter) Close() error           { return nil }
+func (f *failingWriter) SetSource(string) error { return nil }
+
 // recLogger is a member logger of a composite: each Log / LogError is a scheduling point.
 type recLogger struct {
 	x    *gosim.Exec
@@ -82,6 +98,7 @@ type scenario struct {
 	Combined bool
 	SameStream bool
 	Appenders  int // concurrent Append calls (default 1)
+	FirstFails string // writers: a member placed before the others fails every write ("error") or writes short ("short")
 	Bound  int
 }
 
@@ -339,7 +356,11 @@ func bodyMultiple(x *gosim.Exec, w *world, sc scenario) {
 
 func bodyWriters(x *gosim.Exec, w *world, sc scenario) {
 	a, b := &sinkWriter{x: x, name: "a"}, &sinkWriter{x: x, name: "b"}
-	mw, err := logs.NewMultipleWritersWithSource(a)
+	members := []logs.WriterWithSource{a}
+	if sc.FirstFails != "" {
+		members = []logs.WriterWithSource{&failingWriter{x: x, mode: sc.FirstFails}, a}
+	}
+	mw, err := logs.NewMultipleWritersWithSource(members...)
 	if err != nil {
 		x.Violate("setup", "%v", err)
 		return
@@ -505,6 +526,8 @@ func scenarios() []scenario {
 	add(scenario{Name: "multiple/1 member/1 producer + 2 concurrent appenders", Family: "multiple", Member: 1, Prod: 2, Calls: 1, Appenders: 2, Bound: 2})
 	add(scenario{Name: "combined/1 member/1 producer + 2 concurrent appenders", Family: "multiple", Combined: true, Member: 1, Prod: 2, Calls: 1, Appenders: 2, Bound: 2})
 	add(scenario{Name: "writers/2 producers x 1 + adder", Family: "writers", Prod: 3, Calls: 1, Bound: 3})
+	add(scenario{Name: "writers/failing member first/2 producers x 1 + adder", Family: "writers", Prod: 3, Calls: 1, Bound: 2, FirstFails: "error"})
+	add(scenario{Name: "writers/short-writing member first/2 producers x 1 + adder", Family: "writers", Prod: 3, Calls: 1, Bound: 2, FirstFails: "short"})
 	add(scenario{Name: "json/2 producers x 2", Family: "json", Prod: 2, Calls: 2, Bound: 3})
 	for _, ring := range []int{1, 2, 4} {
 		add(scenario{Name: fmt.Sprintf("async/ring=%d/2 producers x 2", ring), Family: "async", Ring: ring, Prod: 2, Calls: 2, Bound: 2})
